@@ -17,8 +17,8 @@ INFO = {
         'all team totals equalised (sigmas unchanged): the equalised result is not lower. The solver\'s job for the A4 clauses is to show that the '
         'code\'s expression is the A4 instance (right margin, right spread, right normaliser).'),
     'bounds': {
-        'quick': 'five models x shapes (1,1),(2,1),(2,2),(3,2) [n=2: total players N = 2..5], (1,1,1),(1,2,1) [all clauses], (1,1,1,1) [range, perm(6), equal]',
-        'thorough': '+ (4,4),(8,8),(1,8) for the n = 2 bound (N = 8, 16, 9), (2,2,2),(1,1,1,1) all permutations, (1,1,1,1,1) range',
+        'quick': 'five models x shapes (1,1),(2,1),(2,2),(3,2) [n=2: total players N = 2..5], (1,1,1),(1,2,1) [all clauses], (1,1,1,1) [range, perm(6), equal], eight single-player teams [range]',
+        'thorough': '+ (4,4),(8,8),(1,8) for the n = 2 bound (N = 8, 16, 9), (2,2,2),(1,1,1,1) all permutations, (1,1,1,1,1) range, eight teams of eight [range]',
     },
     'outside': ['IEEE rounding; exact <= 1 at sigma = 0, N = 2 (there the real-valued result is 1 up to the rounding of the float constant Phi^-1(3/4))',
                 'n = 2 bound for N not listed (each N needs its own certified constant)'],
@@ -49,6 +49,9 @@ def jobs(tier):
         add(key, (1, 1, 1, 1), 'range', cost=60)
         add(key, (1, 1, 1, 1), 'perm', cost=120, nperm=6 if tier == 'quick' else 23, budget=600 if tier == 'quick' else 2400)
         add(key, (1, 1, 1, 1), 'equal', cost=120, budget=600)
+        # the full size the property names
+        for shape in [(1,) * 8] + ([(8,) * 8] if tier == 'thorough' else []):
+            add(key, shape, 'range', cost=200, budget=900 if tier == 'quick' else 2400)
         if tier == 'thorough':
             for shape in [(4, 4), (8, 8), (1, 8)]:
                 add(key, shape, 'range', budget=1200, cost=100)
